@@ -10,6 +10,7 @@ INV = ["MTypeOK", "MDPC", "MExactlySeats", "MNoOverElectionDroop"]
 MC = {"quick": [dict(family="droop", max_ballots=2, max_w=2, invariants=INV, props=["Termination"])],
       "thorough": [dict(family="droop", max_ballots=3, max_w=3, invariants=INV, props=["Termination"]),
                    dict(family="droop", cands=["A", "B", "C", "D"], max_ballots=2, max_w=1, invariants=INV, props=["Termination"]),
+                   dict(family="droop_random", cands=["A", "B", "C", "D", "E"], max_ballots=4, max_w=3, invariants=INV, simulate="num=800"),
                    dict(family="droop", max_ballots=2, max_w=2, with_half=True, invariants=INV, props=["Termination"])]}
 
 
